@@ -61,6 +61,9 @@ pub struct Interpreter<'a, T: IO> {
     // Storing all built-in function names because when modules identifiers are renamed
     // we don't want to rename built-in functions
     built_in_functions: BuiltInFunctionList,
+    // verification hooks (only with --cfg pakhi_verif): forced gc schedule, step budget, counters
+    #[cfg(pakhi_verif)]
+    pub verif: crate::backend::verif_hooks::VerifState,
 }
 
 impl<'a, T: 'a + IO> Interpreter<'a, T> {
@@ -94,6 +97,8 @@ impl<'a, T: 'a + IO> Interpreter<'a, T> {
             total_allocated_object_count: 0,
             io,
             built_in_functions: BuiltInFunctionList::new(),
+            #[cfg(pakhi_verif)]
+            verif: crate::backend::verif_hooks::VerifState::new(),
         }
     }
 
@@ -103,7 +108,11 @@ impl<'a, T: 'a + IO> Interpreter<'a, T> {
                 break;
             }
             self.interpret()?;
+            #[cfg(pakhi_verif)]
+            self.verif_statement_boundary();
             if self.total_allocated_object_count >= 1000 {
+                #[cfg(pakhi_verif)]
+                { self.verif.native_collections += 1; }
                 let mut gc = mark_sweep::GC::new(&mut self.scopes, &mut self.lists,
                                                  &mut self.free_lists,
                                                  &mut self.nameless_records,
@@ -117,6 +126,8 @@ impl<'a, T: 'a + IO> Interpreter<'a, T> {
     }
 
     fn interpret(&mut self) -> Result<(), PakhiErr> {
+        #[cfg(pakhi_verif)]
+        self.verif_count_step()?;
         match self.statements[self.current].clone() {
             parser::Stmt::Print(expr, _, _) => self.interpret_print_stmt(expr)?,
             parser::Stmt::PrintNoEOL(expr, _, _) => self.interpret_print_no_eol(expr)?,
@@ -1378,4 +1389,59 @@ pub fn run(ast: Vec<parser::Stmt>) -> Result<(), PakhiErr> {
     let mut real_io = RealIO::new();
     let mut interpreter = Interpreter::new(ast, &mut real_io);
     return interpreter.run();
+}
+
+// Verification hooks, compiled only with --cfg pakhi_verif
+#[cfg(pakhi_verif)]
+impl<'a, T: 'a + IO> Interpreter<'a, T> {
+    // Called after every statement executed by run(). With a forced schedule the schedule alone
+    // decides if garbage is collected at this boundary, allocation counter trigger is disabled.
+    fn verif_statement_boundary(&mut self) {
+        let boundary = self.verif.boundary;
+        self.verif.boundary += 1;
+        if let Some(schedule) = self.verif.gc_schedule.clone() {
+            let collect = if schedule.is_empty() { false } else { schedule[boundary % schedule.len()] };
+            if collect {
+                if self.verif.log_collections {
+                    let before = self.verif_dump_state();
+                    self.verif.collection_log.push(before);
+                }
+                let mut gc = mark_sweep::GC::new(&mut self.scopes, &mut self.lists,
+                                                 &mut self.free_lists,
+                                                 &mut self.nameless_records,
+                                                 &mut self.free_nameless_records);
+                gc.collect_garbage();
+                self.verif.forced_collections += 1;
+                if self.verif.log_collections {
+                    let after = self.verif_dump_state();
+                    self.verif.collection_log.push(after);
+                }
+            }
+            self.total_allocated_object_count = 0;
+        }
+    }
+
+    fn verif_count_step(&mut self) -> Result<(), PakhiErr> {
+        self.verif.steps += 1;
+        if let Some(budget) = self.verif.step_budget {
+            if self.verif.steps > budget {
+                return Err(PakhiErr::UnexpectedError("VERIF-STEP-LIMIT".to_string()));
+            }
+        }
+        Ok(())
+    }
+
+    // Canonical text of scopes, arenas, free lists and allocation counter
+    pub fn verif_dump_state(&self) -> String {
+        crate::backend::verif_hooks::dump_state(&self.scopes, &self.lists, &self.free_lists,
+                                                &self.nameless_records, &self.free_nameless_records,
+                                                self.total_allocated_object_count)
+    }
+}
+
+#[cfg(pakhi_verif)]
+impl Func {
+    pub fn verif_parts(&self) -> (usize, &Vec<String>) {
+        (self.starting_statement, &self.args)
+    }
 }
